@@ -12,7 +12,7 @@ import (
 func init() {
 	register(&propDef{
 		id:      "C13",
-		explain: "Structural necessary conditions of 'the worker pool never exceeds its bound, serves every accepted connection exactly once and leaves no worker behind after Stop': (E8) ready, workersCount and mustStop are only accessed with workerPool.lock held; (R1) a worker is created only under workersCount < MaxWorkersCount, with the increment in the same critical section, and the goroutine is started exactly on that path; every exit of workerFunc decrements workersCount under the lock; (R2) in each iteration of the worker loop WorkerFunc is called exactly once and followed by exactly one terminal action: Close + StateClosed, or StateHijacked on errHijacked; (R3) Serve sends the connection to exactly one worker channel when it returns true and to none when it returns false; (R4) release re-adds a worker to ready only when mustStop was found false in the same critical section; (R5) Stop detaches the ready list and sets mustStop within one critical section (no unlock in between on any path), so a worker finishing during Stop cannot re-enter ready unnoticed. Not decided: interleavings of Stop with the idle cleaner, idle retirement timing.",
+		explain: "Structural necessary conditions of 'the worker pool never exceeds its bound, serves every accepted connection exactly once and leaves no worker behind after Stop': (E8) ready, workersCount and mustStop are only accessed with workerPool.lock held; (R1) a worker is created only under workersCount < MaxWorkersCount, with the increment in the same critical section, and the goroutine is started exactly on that path; every exit of workerFunc decrements workersCount under the lock; (R2) in each iteration of the worker loop WorkerFunc is called exactly once and followed by exactly one terminal action: Close + StateClosed, or StateHijacked on errHijacked; (R3) Serve sends the connection to exactly one worker channel when it returns true and to none when it returns false; (R4) release re-adds a worker to ready only when mustStop was found false in the same critical section; (R5) Stop detaches the ready list and sets mustStop within one critical section (no unlock in between on any path), so a worker finishing during Stop cannot re-enter ready unnoticed. workersCount is assigned only by getCh (+1) and by workerFunc (-1, at most once per path), by exactly one, from its own previous value; Not decided: interleavings of Stop with the idle cleaner, idle retirement timing.",
 		run:     runC13,
 	})
 }
@@ -178,6 +178,45 @@ func runC13(p *Prog, r *Report) {
 		dec := func(in ssa.Instruction) bool { return isFieldStore(in, "workersCount") != nil }
 		hit, path := reachAvoiding(workerFunc, nil, isReturn, dec, nil)
 		r.Check("R1", "workerFunc decrements workersCount on every path to its return", hit == nil, p.Pos(workerFunc.Pos()), "a return of workerFunc is reachable without the decrement: the pool believes a worker exists forever and eventually refuses connections", blocksString(p, path)...)
+	}
+
+	// the count is kept by exactly two routines: the one that starts a worker adds one, the worker itself takes
+	// one off when it exits (checked above, once per exit path); any other assignment counts a worker twice
+	{
+		n := 0
+		for _, fn := range p.funcsIn("") {
+			for _, b := range fn.Blocks {
+				for _, in := range b.Instrs {
+					st := isFieldStore(in, "workersCount")
+					if st == nil {
+						continue
+					}
+					if fa, ok := st.Addr.(*ssa.FieldAddr); !ok || typeNameOf(fa.X) != "workerPool" {
+						continue
+					}
+					n++
+					owner := fn == getCh || fn == workerFunc
+					// exactly one step: old value +/- 1
+					step := false
+					if bo, ok := st.Val.(*ssa.BinOp); ok && (bo.Op == token.ADD || bo.Op == token.SUB) {
+						if k, isK := constInt(bo.Y); isK && k == 1 {
+							if _, fv := loadedField(bo.X); fv != nil && fv.Name() == "workersCount" {
+								step = (bo.Op == token.ADD) == (fn == getCh)
+							}
+						}
+					}
+					r.Check("R1", fmt.Sprintf("%s: workersCount changes by one, +1 where a worker is started and -1 where the worker exits, nowhere else", funcName(fn)), owner && step, p.Pos(st.Pos()),
+						"the worker count is assigned outside the start/exit pair (or by another amount): a worker is counted off twice, the count falls below the number of live workers and the MaxWorkersCount test admits more than the bound")
+					// a second decrement on the same path
+					if fn == workerFunc {
+						me := in
+						hit, path := reachAvoiding(fn, in, func(i ssa.Instruction) bool { return i != me && isFieldStore(i, "workersCount") != nil }, nil, nil)
+						r.Check("R1", "workerFunc decrements workersCount at most once on any path", hit == nil, p.Pos(st.Pos()), "a second assignment of the count is reachable after the first", blocksString(p, path)...)
+					}
+				}
+			}
+		}
+		r.Floor("R1", "assignments of workerPool.workersCount", n, 2)
 	}
 
 	// ---- R2: per iteration of the worker loop ----
